@@ -63,7 +63,7 @@ try:
         res["applies"] = rc3 == 0
         res["apply_note"] = "3way" if rc3 == 0 else out[-300:]
     if res["applies"]:
-        rc, out = sh("/venv/bin/python -m pytest -q -p no:cacheprovider -x -q 2>&1 | tail -1", env={"PYTHONPATH": f"{d}/src"}, cwd=d)
+        rc, out = sh("/venv/bin/python -m pytest -q -p no:cacheprovider -x 2>&1 | tail -1", env={"PYTHONPATH": f"{d}/src"}, cwd=d)
         res["suite"] = out.strip().splitlines()[-1] if out.strip() else ""
         res["suite_passes"] = "passed" in res["suite"] and "failed" not in res["suite"] and "error" not in res["suite"]
         rc0, _ = sh(f"/venv/bin/python {demo}", env={"PYTHONPATH": "/repo/src"}, cwd=os.path.dirname(demo), timeout=300)
